@@ -431,23 +431,20 @@ Qed.
 
 (** * Insert *)
 
-Lemma sim_insert s L b : R s L -> op_ok (PInsert b) = true -> sim_goal s (PInsert b).
+Lemma insert_gen s L b n :
+  R s L -> blen b < delete_mask -> (blen b =? 0) = false ->
+  (free_remaining s <? blen b + size_tuple) = false ->
+  (n <= length (slots s))%nat ->
+  (forall o szf, nth_error (slots s) n = Some (o, szf) -> szf = 0) ->
+  R (mkP (fsp s - blen b) (set_nth (slots s) n (fsp s - blen b, blen b)) (b ++ data s))
+    ((n, b) :: L) /\
+  abs (mkP (fsp s - blen b) (set_nth (slots s) n (fsp s - blen b, blen b)) (b ++ data s))
+  = set_nth (abs s) n (Some (b, false)).
 Proof.
-  intros HR Hok. unfold sim_goal. cbn [pstep astep]. unfold p_insert.
-  cbn [op_ok] in Hok. apply andb_true_iff in Hok. destruct Hok as [Hb _].
-  destruct (blen b =? 0) eqn:E0; [cbn [fst snd]; eauto|].
-  rewrite (a_free_eq _ _ HR).
+  intros HR Hb E0 E1 Hle Hz.
   pose proof (free_eq _ _ HR) as Hfree.
   pose proof (R_bounds _ _ HR) as (B1 & B2 & B3). pose proof (R_hdr _ _ HR) as B4.
   pose proof (R_fsp _ _ HR) as B5.
-  rewrite add32_small by (unf; lia).
-  destruct (free_remaining s <? blen b + size_tuple) eqn:E1; [cbn [fst snd]; eauto|].
-  rewrite sub32_small by (unf; lia).
-  cbn [fst snd].
-  replace (a_first_free (abs s) 0) with (first_free (slots s) 0)
-    by (unfold abs; apply first_free_abs).
-  destruct (first_free_spec (slots s) 0) as (n & Hn & Hle & Hz). rewrite Hn.
-  replace (N.to_nat (0 + N.of_nat n)) with n by lia.
   assert (Hnin : ~ In n (map fst L)).
   { intros Hin. apply in_map_iff in Hin. destruct Hin as ([n' bn] & En & Hin). cbn in En. subst n'.
     destruct (lay_in _ _ _ _ _ (R_lay _ _ HR) Hin) as (pre & post & m & EL & Hs).
@@ -483,7 +480,7 @@ Proof.
     - rewrite tot_cons. unf. lia.
     - unfold count in *. cbn [slots].
       pose proof (set_nth_length_le (slots s) n (fsp s - blen b, blen b)). unf. lia. }
-  split; [eauto|]. split; [|reflexivity].
+  split; [exact HR'|].
   rewrite (abs_step s _ _ _ n (fsp s - blen b, blen b) (fun x => x) HR HR').
   - f_equal. apply (abs_entry_slot _ _ n _ _ HR').
     + cbn [slots]. apply nth_error_set_nth_eq. exact Hle.
@@ -493,6 +490,82 @@ Proof.
   - reflexivity.
   - reflexivity.
   - intros j bj _ Hin. right. exact Hin.
+Qed.
+
+
+Lemma slot_available_abs s i : slot_available (slots s) i = a_available (abs s) i.
+Proof.
+  unfold slot_available, a_available. rewrite nth_error_abs. unfold abs. rewrite map_length.
+  f_equal. destruct (nth_error (slots s) (N.to_nat i)) as [[o szf]|]; [|reflexivity].
+  cbn [option_map abs_entry]. destruct (szf =? 0); reflexivity.
+Qed.
+
+Lemma slot_available_spec l i : slot_available l i = true ->
+  (N.to_nat i <= length l)%nat /\
+  (forall o szf, nth_error l (N.to_nat i) = Some (o, szf) -> szf = 0).
+Proof.
+  unfold slot_available. intros H. apply orb_true_iff in H. destruct H as [H|H].
+  - assert (E : N.to_nat i = length l) by lia. split; [lia|].
+    intros o szf Hs. apply nth_error_lt in Hs. lia.
+  - destruct (nth_error l (N.to_nat i)) as [[o szf]|] eqn:E; [|discriminate].
+    split; [apply nth_error_lt in E; lia|]. intros o' szf' Hs. inversion Hs; subst. lia.
+Qed.
+
+Lemma sim_insert_common s L b (t : N) :
+  R s L -> (blen b <? delete_mask) = true ->
+  (N.to_nat t <= length (slots s))%nat ->
+  (forall o szf, nth_error (slots s) (N.to_nat t) = Some (o, szf) -> szf = 0) ->
+  let r := if blen b =? 0 then (s, OPanic)
+           else if free_remaining s <? add32 (blen b) size_tuple then (s, ONoSpace)
+           else (mkP (sub32 (fsp s) (blen b))
+                     (set_nth (slots s) (N.to_nat t) (sub32 (fsp s) (blen b), blen b))
+                     (b ++ data s), OInserted t) in
+  let ra := if blen b =? 0 then (abs s, OPanic)
+            else if a_free (abs s) <? blen b + size_tuple then (abs s, ONoSpace)
+            else (set_nth (abs s) (N.to_nat t) (Some (b, false)), OInserted t) in
+  (exists L', R (fst r) L') /\ abs (fst r) = fst ra /\ snd r = snd ra.
+Proof.
+  intros HR Hb Hle Hz. cbv zeta.
+  destruct (blen b =? 0) eqn:E0; [cbn [fst snd]; eauto|].
+  rewrite (a_free_eq _ _ HR).
+  pose proof (free_eq _ _ HR) as Hfree.
+  pose proof (R_bounds _ _ HR) as (B1 & B2 & B3). pose proof (R_hdr _ _ HR) as B4.
+  rewrite add32_small by (unf; lia).
+  destruct (free_remaining s <? blen b + size_tuple) eqn:E1; [cbn [fst snd]; eauto|].
+  rewrite sub32_small by (unf; lia).
+  cbn [fst snd].
+  destruct (insert_gen s L b (N.to_nat t) HR ltac:(lia) E0 E1 Hle Hz) as [HR' Ea].
+  split; [eauto|]. split; [exact Ea | reflexivity].
+Qed.
+
+Lemma sim_insert s L b : R s L -> op_ok (PInsert b) = true -> sim_goal s (PInsert b).
+Proof.
+  intros HR Hok. unfold sim_goal. cbn [pstep astep]. unfold p_insert.
+  cbn [op_ok] in Hok. apply andb_true_iff in Hok. destruct Hok as [Hb _].
+  cbv zeta.
+  replace (a_first_free (abs s) 0) with (first_free (slots s) 0)
+    by (unfold abs; apply first_free_abs).
+  destruct (first_free_spec (slots s) 0) as (n & Hn & Hle & Hz).
+  apply (sim_insert_common s L b (first_free (slots s) 0) HR Hb).
+  - rewrite Hn. lia.
+  - rewrite Hn. replace (N.to_nat (0 + N.of_nat n)) with n by lia. exact Hz.
+Qed.
+
+Lemma sim_insert_at s L i b : R s L -> op_ok (PInsertAt i b) = true -> sim_goal s (PInsertAt i b).
+Proof.
+  intros HR Hok. unfold sim_goal. cbn [pstep astep]. unfold p_insert_at.
+  cbn [op_ok] in Hok. apply andb_true_iff in Hok. destruct Hok as [Hb _].
+  cbv zeta.
+  rewrite <- slot_available_abs.
+  replace (a_first_free (abs s) 0) with (first_free (slots s) 0)
+    by (unfold abs; apply first_free_abs).
+  destruct (slot_available (slots s) i) eqn:Eav.
+  - destruct (slot_available_spec _ _ Eav) as [Hle Hz].
+    apply (sim_insert_common s L b i HR Hb Hle Hz).
+  - destruct (first_free_spec (slots s) 0) as (n & Hn & Hle & Hz).
+    apply (sim_insert_common s L b (first_free (slots s) 0) HR Hb).
+    + rewrite Hn. lia.
+    + rewrite Hn. replace (N.to_nat (0 + N.of_nat n)) with n by lia. exact Hz.
 Qed.
 
 (** * Apply delete *)
@@ -738,8 +811,9 @@ Qed.
 
 Lemma step_sim s L o : R s L -> op_ok o = true -> sim_goal s o.
 Proof.
-  intros HR Hok. destruct o as [b|i b r|i|i|i|i].
+  intros HR Hok. destruct o as [b|i b|i b r|i|i|i|i].
   - eapply sim_insert; eassumption.
+  - eapply sim_insert_at; eassumption.
   - eapply sim_update; eassumption.
   - eapply sim_mark; eassumption.
   - eapply sim_apply; eassumption.
